@@ -226,7 +226,7 @@ fn o2_2_escape_is_map1_bmp3() {
     escape_is_map1(0x800, 0xFFFF);
 }
 
-//@ harness: o2_2_escape_is_map1_astral props=C02,C08 tier=quick obl=O2.2 timeout=900 mem=22
+//@ harness: o2_2_escape_is_map1_astral props=C02,C08 tier=thorough obl=O2.2 timeout=900 mem=22
 //@ desc: as o2_2_escape_is_map1_bmp1 for every 4-byte char U+10000..U+10FFFF
 //@ encodes: fragment::text::escape_html_text, fragment::text::replace_html_char
 #[kani::proof]
